@@ -103,4 +103,22 @@ CLAIMED = {
                      "fault injection into the implementation",
         "design_ref": "DESIGN.md section 4 (C08)",
     },
+    "C11": {
+        "text": "VectorHeap.tla models the Vector as a heap (array objects, metadata dict objects, vectors "
+                "holding references) kept in canonical form; TLC checks CellsWellFormed, Schema, "
+                "NoSharing (copies / independently created vectors share no array and no metadata dict), "
+                "FlattenRoundTrip and SliceAddresses (1, 2 and 3 fixed dimensions) over all operation "
+                "histories of the bounded model and rejects three wrong variants (shared metadata "
+                "default, 2-D-only slicing, add_fields mutating shared arrays). TLC generates the "
+                "operation scripts (exhaustive depth 3: ~24k; simulated 10-step walks); each is executed "
+                "on real Vectors and after every call the full heap projection (identity graph + "
+                "contents) and read-backs (cell/fancy get, flatten, field flatten) are recorded; the "
+                "traces are validated against the spec by TLC, which resolves share-vs-copy.",
+        "note": "Trusted: TLC, the driver's projection (identity by id() of live objects) and its mapping "
+                "of script actions to public calls. Scripts stay inside the claim: full index tuples "
+                "for assignment, fresh arrays, no repeated fancy indices.",
+        "technique": "TLA+ heap model checked by TLC; TLC-generated scripts executed on the code; "
+                     "recorded traces validated against the spec with TLC",
+        "design_ref": "DESIGN.md section 4 (C11)",
+    },
 }
